@@ -207,7 +207,8 @@ class OutOfBound(Exception):
     payload, keeps irrelevant forks out of every other path."""
 
 
-STR_MAX = 2
+# bound on symbolic strings in leaf slots: 2 characters (quick), 3 (thorough; VERIF_TIER is exported by the driver)
+STR_MAX = 3 if os.environ.get('VERIF_TIER') == 'thorough' else 2
 
 # A *leaf slot* is three primitives (k, i, s): kind selector 0..5 and the payloads.
 #   0 None   1 bool (i > 0)   2 int i (unbounded)   3 float from {1.5, nan, -inf} (by sign of i)
